@@ -156,6 +156,9 @@ def read_q(w, read):
     return [read(w)]
 
 
+SYM_EQ = [None]  # installed by symbolic runs: decides equality of two term arrays that are not identical
+
+
 def same(a, b):
     if isinstance(a, list):
         return len(a) == len(b) and all(same(x, y) for x, y in zip(a, b))
@@ -163,7 +166,11 @@ def same(a, b):
         return a.shape == b.shape and a.dtype == b.dtype and torch.equal(torch.nan_to_num(a.float(), nan=12345.0), torch.nan_to_num(b.float(), nan=12345.0))
     import numpy as np
 
-    return a.shape == b.shape and all(x is y for x, y in zip(a.reshape(-1), b.reshape(-1)))
+    if a.shape != b.shape:
+        return False
+    if all(x is y for x, y in zip(a.reshape(-1), b.reshape(-1))):
+        return True
+    return bool(SYM_EQ[0](a, b)) if SYM_EQ[0] else False
 
 
 def run_case(case, res):
@@ -181,6 +188,8 @@ def run_case(case, res):
         with Session(res) as m:
             P = models.symbolic_params(m, model)
             X = m.symbolic(x, "x")
+            bits_ = wq.qt(case["qtype"]).bits
+            SYM_EQ[0] = (lambda a, b: api.equal_modulo_bits(m.ctx, a, b, bits_, res)) if bits_ < 8 else None
             probs = run_history(model, x, hist, lambda t: m.read(t) if type(t) in (torch.Tensor, torch.nn.Parameter) else m.read(t.dequantize()))
         nv = x.numel() + sum(v.size for v in P.values())
         res.query("lifecycle-preserves-outputs-and-state", "ALG", "unsat" if not probs else "sat", 0.0, sub=f"{hist}", nvars=nv)
